@@ -38,12 +38,24 @@ func identsOf(names []string) string {
 	return strings.Join(r, " ")
 }
 
-func (x *xtr) afterLoop(t ast.Node, call string, state []string, rest func() string) string {
-	if x.ctx.then == "" {
+// the statements after a loop definition of kind "Ctl" (fuelled) or "Brk" (range loop with exits)
+func (x *xtr) afterLoop(t ast.Node, kind, call string, state []string, rest func() string) string {
+	comb := map[string]map[xmode]string{
+		"Ctl": {mOut: "finish", mCtl: "andThen"},
+		"Brk": {mPlain: "finish", mOut: "finishOut", mCtl: "andThenCtl", mBrk: "andThen"},
+	}[kind][x.ctx.mode]
+	if comb == "" {
 		x.bad(t, "a loop with an exit is not allowed here")
 	}
 	pat := tupleNames(state)
-	return fmt.Sprintf("(%s).%s fun %s =>\n%s", call, x.ctx.then, pat, indent(rest(), 1))
+	return fmt.Sprintf("(%s).%s fun %s =>\n%s", call, comb, pat, indent(rest(), 1))
+}
+
+func (x *xtr) polyBinder() string {
+	if x.poly {
+		return "{α : Type} "
+	}
+	return ""
 }
 
 // `for ; i < n; i++` whose body assigns neither i nor a variable of n: the fuel is known
@@ -136,11 +148,7 @@ func (x *xtr) forStmt(s *ast.ForStmt, rest func() string) string {
 			return strings.TrimSpace(fmt.Sprintf("%s %s fuel %s", info.name, identsOf(inv), identsOf(state)))
 		}
 		savedCtx := x.ctx
-		x.ctx = xctx{
-			ret:  func(v string) string { return "Go.Ctl.ret " + paren(v) },
-			brk:  func() string { return "Go.Ctl.next " + tuple },
-			then: "andThen",
-		}
+		x.ctx = xctx{mode: mCtl, brk: func() string { return "Go.Ctl.next " + tuple }}
 		x.ctx.cont = func() string {
 			// the post statement is translated where it runs; it sees the loop's variables only
 			e := x.env
@@ -166,8 +174,8 @@ func (x *xtr) forStmt(s *ast.ForStmt, rest func() string) string {
 			us = append(us, "_")
 		}
 		sig := strings.Join(append([]string{"Nat"}, sty...), " → ")
-		text := fmt.Sprintf("def %s %s : %s → Go.Ctl %s %s\n  | %s => Go.Ctl.outOfFuel\n  | %s =>\n%s\n",
-			info.name, x.binders(inv), sig, parenT(x.tupleType(state)), parenT(x.rhoLean()),
+		text := fmt.Sprintf("def %s %s%s : %s → Go.Ctl %s %s\n  | %s => Go.Ctl.outOfFuel\n  | %s =>\n%s\n",
+			info.name, x.polyBinder(), x.binders(inv), sig, parenT(x.tupleType(state)), parenT(x.rhoLean()),
 			strings.Join(append([]string{"0"}, us...), ", "),
 			strings.Join(append([]string{"fuel + 1"}, splitIdents(state)...), ", "),
 			indent(body, 2))
@@ -179,7 +187,7 @@ func (x *xtr) forStmt(s *ast.ForStmt, rest func() string) string {
 	call := strings.TrimSpace(fmt.Sprintf("%s %s %s %s", info.name, identsOf(inv), fuel, identsOf(state)))
 	// variables declared by the init statement end with the loop
 	after := func() string { x.env = copyEnv(saved); return rest() }
-	r := joinLines(initText, x.afterLoop(s, call, state, after))
+	r := joinLines(initText, x.afterLoop(s, "Ctl", call, state, after))
 	x.env = saved
 	return r
 }
@@ -235,7 +243,7 @@ func (x *xtr) rangeStmt(s *ast.RangeStmt, rest func() string) string {
 		x.declare(s, key, tInt)
 		x.declare(s, val, coll.ty.elem)
 		savedCtx := x.ctx
-		x.ctx = xctx{cont: func() string { return tuple }}
+		x.ctx = xctx{mode: mNone, cont: func() string { return tuple }}
 		body := x.block(s.Body.List, func() string { return tuple })
 		x.ctx = savedCtx
 		x.env = saved
@@ -249,7 +257,11 @@ func (x *xtr) rangeStmt(s *ast.RangeStmt, rest func() string) string {
 		}
 		return joinLines(fmt.Sprintf("let %s : %s := Go.forRange %s %s (fun %s %s %s =>\n%s)", tuple, x.tupleType(state), paren(coll.s), tuple, kpat, vpat, tuple, indent(joinLines(bind, body), 2)), rest())
 	}
-	// structural recursion over the list, with exits
+	// structural recursion over the list, with exits; Go.Ctl if a `for` loop inside can run out of fuel
+	kind, mode := "Brk", mBrk
+	if in.fuelLoop {
+		kind, mode = "Ctl", mCtl
+	}
 	refs := x.references(s.Body)
 	for _, n := range state {
 		delete(refs, n)
@@ -269,15 +281,10 @@ func (x *xtr) rangeStmt(s *ast.RangeStmt, rest func() string) string {
 			idx = " (" + ident(key) + " + 1)"
 		}
 		recur := func() string {
-			return strings.TrimSpace(fmt.Sprintf("%s %s rest_%s %s", info.name, identsOf(inv), idx, identsOf(state)))
+			return strings.Join(strings.Fields(fmt.Sprintf("%s %s rest_", info.name, identsOf(inv))), " ") + strings.TrimRight(idx+" "+identsOf(state), " ")
 		}
 		savedCtx := x.ctx
-		x.ctx = xctx{
-			ret:  func(v string) string { return "Go.Ctl.ret " + paren(v) },
-			brk:  func() string { return "Go.Ctl.next " + tuple },
-			cont: recur,
-			then: "andThen",
-		}
+		x.ctx = xctx{mode: mode, brk: func() string { return "Go." + kind + ".next " + tuple }, cont: recur}
 		body := x.block(s.Body.List, recur)
 		x.ctx = savedCtx
 		var sty []string
@@ -298,9 +305,9 @@ func (x *xtr) rangeStmt(s *ast.RangeStmt, rest func() string) string {
 		nilPat = append(nilPat, splitIdents(state)...)
 		consPat = append(consPat, splitIdents(state)...)
 		x.env = outerEnv
-		text := fmt.Sprintf("def %s %s : %s → Go.Ctl %s %s\n  | %s => Go.Ctl.next %s\n  | %s =>\n%s\n",
-			info.name, x.binders(inv), strings.Join(sigParts, " → "), parenT(x.tupleType(state)), parenT(x.rhoLean()),
-			strings.Join(nilPat, ", "), tuple, strings.Join(consPat, ", "), indent(body, 2))
+		text := fmt.Sprintf("def %s %s%s : %s → Go.%s %s %s\n  | %s => Go.%s.next %s\n  | %s =>\n%s\n",
+			info.name, x.polyBinder(), x.binders(inv), strings.Join(sigParts, " → "), kind, parenT(x.tupleType(state)), parenT(x.rhoLean()),
+			strings.Join(nilPat, ", "), kind, tuple, strings.Join(consPat, ", "), indent(body, 2))
 		text = strings.Replace(text, "  : ", " : ", 1)
 		x.defs = append(x.defs, genFunc{name: info.name, text: fmt.Sprintf("/- loop at line %d of %s -/\n", x.pos(s).Line, x.sp.File) + text})
 	}
@@ -308,16 +315,125 @@ func (x *xtr) rangeStmt(s *ast.RangeStmt, rest func() string) string {
 	if key != "_" {
 		start = " 0"
 	}
-	call := strings.TrimSpace(fmt.Sprintf("%s %s %s%s %s", info.name, identsOf(inv), paren(coll.s), start, identsOf(state)))
+	call := strings.TrimSpace(strings.TrimSpace(info.name+" "+identsOf(inv)) + " " + paren(coll.s) + start + " " + identsOf(state))
 	after := func() string { x.env = copyEnv(saved); return rest() }
-	r := x.afterLoop(s, call, state, after)
+	r := x.afterLoop(s, kind, call, state, after)
 	x.env = saved
 	return r
 }
 
+// switch v := e.(type) { case map[string]any: …  default: … } on an interface value
 func (x *xtr) typeSwitch(s *ast.TypeSwitchStmt, rest func() string) string {
-	x.bad(s, "type switch")
-	return ""
+	if s.Init != nil {
+		x.bad(s, "type switch with an init statement")
+	}
+	var bind string
+	var ta *ast.TypeAssertExpr
+	switch a := s.Assign.(type) {
+	case *ast.AssignStmt:
+		if len(a.Lhs) == 1 && len(a.Rhs) == 1 {
+			if id, ok := a.Lhs[0].(*ast.Ident); ok {
+				bind = id.Name
+			}
+			ta, _ = a.Rhs[0].(*ast.TypeAssertExpr)
+		}
+	case *ast.ExprStmt:
+		ta, _ = a.X.(*ast.TypeAssertExpr)
+	}
+	if ta == nil || ta.Type != nil {
+		x.bad(s, "type switch form")
+	}
+	v := x.expr(ta.X)
+	if v.ty.k != kAny {
+		x.bad(s, "type switch on %s", v.ty.lean())
+	}
+	var bodies [][]ast.Stmt
+	for _, cl := range s.Body.List {
+		bodies = append(bodies, cl.(*ast.CaseClause).Body)
+	}
+	var all []ast.Stmt
+	for _, b := range bodies {
+		all = append(all, b...)
+	}
+	cps := hasControl(all)
+	out := map[string]bool{}
+	for _, b := range bodies {
+		x.assigned(b, map[string]bool{bind: true}, out)
+	}
+	names := sortedNames(out)
+	tuple := tupleNames(names)
+	saved, savedCtx := x.env, x.ctx
+	if !cps {
+		x.ctx = xctx{mode: mNone}
+	}
+	k := func() string {
+		if cps {
+			x.env = copyEnv(saved)
+			return rest()
+		}
+		return tuple
+	}
+	mapTy := &xty{k: kMap, key: tStr, elem: tAny}
+	var arms []string
+	sawMap, sawDefault := false, false
+	for _, cl := range s.Body.List {
+		cc := cl.(*ast.CaseClause)
+		x.env = copyEnv(saved)
+		var pat string
+		switch {
+		case cc.List == nil:
+			if sawDefault {
+				x.bad(cc, "two default clauses")
+			}
+			sawDefault = true
+			pat = "_"
+			if bind != "" && x.mentionsList(cc.Body, bind) {
+				x.bad(cc, "the switch variable is used in the default clause")
+			}
+		case len(cc.List) == 1 && sameTy(x.goTy(cc.List[0]), mapTy):
+			if sawMap || sawDefault {
+				x.bad(cc, "clause order")
+			}
+			sawMap = true
+			pat = ".map _"
+			if bind != "" {
+				x.declare(cc, bind, mapTy)
+				pat = ".map " + ident(bind)
+			}
+		default:
+			x.bad(cc, "type switch clause (only `case map[string]any` and `default` are in the subset)")
+		}
+		arms = append(arms, fmt.Sprintf("| %s =>\n%s", pat, indent(armBody(x.block(cc.Body, k)), 1)))
+	}
+	x.env, x.ctx = saved, savedCtx
+	if !sawDefault {
+		// no clause applies: the statement does nothing
+		x.env = copyEnv(saved)
+		arms = append(arms, fmt.Sprintf("| _ =>\n%s", indent(armBody(k()), 1)))
+		x.env = saved
+	}
+	m := fmt.Sprintf("match %s with\n%s", v.s, strings.Join(arms, "\n"))
+	if cps {
+		return m
+	}
+	for _, n := range names {
+		if _, ok := x.env[n]; !ok {
+			x.bad(s, "assignment to %s, which is not a variable of the function", n)
+		}
+	}
+	if len(names) == 0 {
+		return rest()
+	}
+	return joinLines(fmt.Sprintf("let %s : %s :=\n%s", tuple, x.tupleType(names), indent(m, 1)), rest())
+}
+
+func (x *xtr) mentionsList(stmts []ast.Stmt, name string) bool {
+	for _, s := range stmts {
+		if x.mentions(s, name) {
+			return true
+		}
+	}
+	return false
 }
 
 // ---------------------------------------------------------------------------------------------
@@ -387,7 +503,7 @@ type constSpec struct {
 	As   string // name used in the translated function (e.g. "ErrShardUnavailable")
 }
 
-func findType(f *ast.File, name string) *ast.StructType {
+func findType(f *ast.File, name string) ast.Expr {
 	for _, d := range f.Decls {
 		gd, ok := d.(*ast.GenDecl)
 		if !ok || gd.Tok != token.TYPE {
@@ -395,10 +511,8 @@ func findType(f *ast.File, name string) *ast.StructType {
 		}
 		for _, sp := range gd.Specs {
 			ts := sp.(*ast.TypeSpec)
-			if ts.Name.Name == name {
-				if st, ok := ts.Type.(*ast.StructType); ok {
-					return st
-				}
+			if ts.Name.Name == name && ts.TypeParams == nil {
+				return ts.Type
 			}
 		}
 	}
@@ -407,14 +521,15 @@ func findType(f *ast.File, name string) *ast.StructType {
 
 type fileLoader func(rel string) *ast.File
 
-func translateExt(fset *token.FileSet, load fileLoader, sp spec) []genFunc {
+func translateExt(fset *token.FileSet, load fileLoader, sp spec, known map[string]*xty) []genFunc {
 	f := load(sp.File)
 	fd := findFunc(f, sp)
 	if fd == nil {
 		fail(token.Position{Filename: sp.File}, "function %s (recv %q) not found", sp.Func, sp.Recv)
 	}
 	x := &xtr{fset: fset, sp: sp, env: map[string]*xty{}, structs: map[string]*xstruct{}, consts: map[string]xval{},
-		shared: map[string]bool{}, loops: map[ast.Stmt]*loopInfo{}, ptrParams: map[string]bool{}, params: map[string]bool{}, prims: map[string]bool{}}
+		shared: map[string]bool{}, loops: map[ast.Stmt]*loopInfo{}, ptrParams: map[string]bool{}, params: map[string]bool{}, prims: map[string]bool{},
+		aliases: map[string]*xty{}, known: known}
 	x.fname = sp.Func
 	if sp.Recv != "" {
 		x.fname = sp.Recv + "_" + sp.Func
@@ -422,28 +537,35 @@ func translateExt(fset *token.FileSet, load fileLoader, sp spec) []genFunc {
 	var out []genFunc
 	// struct types named by the spec, in order (later ones may use earlier ones)
 	for _, ss := range sp.Structs {
-		st := findType(load(ss.File), ss.Name)
-		if st == nil {
-			fail(token.Position{Filename: ss.File}, "struct type %s not found", ss.Name)
+		te := findType(load(ss.File), ss.Name)
+		if te == nil {
+			fail(token.Position{Filename: ss.File}, "type %s not found", ss.Name)
+		}
+		st, isStruct := te.(*ast.StructType)
+		if !isStruct { // a named map / slice type: an alias of its underlying type
+			x.aliases[ss.Name] = x.goTy(te)
+			continue
 		}
 		xs := &xstruct{name: ss.Name}
 		only := map[string]bool{}
 		for _, o := range ss.Only {
 			only[o] = true
 		}
-		x.structs[ss.Name] = xs // recursive mention is caught by goTy of the field (no pointer types)
 		for _, fl := range st.Fields.List {
 			for _, n := range fl.Names {
-				if len(only) > 0 && !only[n.Name] {
+				if len(ss.Only) > 0 && !only[n.Name] {
 					continue
 				}
 				delete(only, n.Name)
-				xs.fields = append(xs.fields, xfield{n.Name, x.goTy(fl.Type)})
+				ft := x.goTy(fl.Type)
+				xs.fields = append(xs.fields, xfield{n.Name, ft})
+				xs.poly = xs.poly || ft.mentionsAny()
 			}
 		}
 		if len(ss.Only) > 0 && len(only) > 0 {
 			fail(token.Position{Filename: ss.File}, "struct %s has no field(s) %v", ss.Name, sortedNames(only))
 		}
+		x.structs[ss.Name] = xs
 		out = append(out, x.structText(xs))
 	}
 	for _, cs := range sp.Consts {
@@ -475,8 +597,29 @@ func translateExt(fset *token.FileSet, load fileLoader, sp spec) []genFunc {
 	for _, o := range sp.Oracles {
 		oracle[o] = true
 	}
+	var primBinders []string
 	for _, p := range sp.Prims {
-		x.prims[p] = true
+		if lt, ok := primTypes[p]; ok { // polymorphic library function, used by name
+			x.prims[p] = true
+			primBinders = append(primBinders, fmt.Sprintf("(%s : %s)", p, lt))
+			continue
+		}
+		// "Name=func(..) .." : a function of the repository that stays abstract
+		nt := strings.SplitN(p, "=", 2)
+		if len(nt) != 2 {
+			x.bad(fd, "spec.Prims entry %q", p)
+		}
+		te, err := parser.ParseExpr(nt[1])
+		if err != nil {
+			x.bad(fd, "spec.Prims entry %q: %v", p, err)
+		}
+		ty := x.goTy(te)
+		if ty.k != kFunc {
+			x.bad(fd, "spec.Prims entry %q is not a function type", p)
+		}
+		x.declare(fd, nt[0], ty)
+		x.poly = x.poly || ty.mentionsAny()
+		primBinders = append(primBinders, fmt.Sprintf("(%s : %s)", ident(nt[0]), ty.lean()))
 	}
 	for _, p := range fd.Type.Params.List {
 		for _, n := range p.Names {
@@ -495,6 +638,7 @@ func translateExt(fset *token.FileSet, load fileLoader, sp spec) []genFunc {
 			} else if ty.k == kFunc && len(ty.params) == 0 {
 				x.bad(p, "callback %s takes no arguments, so it cannot be pure: list it in spec.Oracles", n.Name)
 			}
+			x.poly = x.poly || ty.mentionsAny()
 			addParam(p, n.Name, ty)
 		}
 	}
@@ -507,6 +651,7 @@ func translateExt(fset *token.FileSet, load fileLoader, sp spec) []genFunc {
 				x.bad(fd, "named results")
 			}
 			x.results = append(x.results, x.goTy(r.Type))
+			x.poly = x.poly || x.results[len(x.results)-1].mentionsAny()
 		}
 		for i, r := range x.results {
 			if r.k == kErr && i != len(x.results)-1 {
@@ -522,6 +667,10 @@ func translateExt(fset *token.FileSet, load fileLoader, sp spec) []genFunc {
 		if _, isPtr := fd.Recv.List[0].Type.(*ast.StarExpr); isPtr {
 			x.extras = append(x.extras, x.recv)
 		}
+	}
+	// slice / map parameters written in place: the caller sees it, so they are returned too
+	for _, n := range x.inPlaceParams(fd) {
+		x.extras = append(x.extras, n)
 	}
 	var oracleNames []string
 	for n, ty := range x.env {
@@ -543,11 +692,11 @@ func translateExt(fset *token.FileSet, load fileLoader, sp spec) []genFunc {
 		}
 		x.rho = l + " × " + x.env[ex].lean()
 	}
-	x.hasExit = needsExit(fd.Body.List)
+	x.hasExit = scanCtl(fd.Body.List).fuelLoop
 	if x.hasExit {
-		x.ctx = xctx{ret: func(v string) string { return "Go.Out.ret " + paren(v) }, then: "finish"}
+		x.ctx = xctx{mode: mOut}
 	} else {
-		x.ctx = xctx{ret: func(v string) string { return v }}
+		x.ctx = xctx{mode: mPlain}
 	}
 	body := x.block(fd.Body.List, func() string {
 		if len(x.results) != 0 {
@@ -579,14 +728,69 @@ func translateExt(fset *token.FileSet, load fileLoader, sp spec) []genFunc {
 	if x.needFuel {
 		pre = append(pre, "(fuel : Nat)")
 	}
-	for _, p := range sp.Prims {
-		pre = append(pre, fmt.Sprintf("(%s : %s)", p, primTypes[p]))
-	}
+	pre = append(pre, primBinders...)
 	params = append(pre, params...)
-	text := fmt.Sprintf("def %s %s : %s :=\n%s\n", x.fname, strings.Join(params, " "), rty, indent(body, 1))
+	text := fmt.Sprintf("def %s %s%s : %s :=\n%s\n", x.fname, x.polyBinder(), strings.Join(params, " "), rty, indent(body, 1))
 	out = append(out, x.defs...)
 	out = append(out, genFunc{name: x.fname, text: text})
+	// callable from functions translated later into the same module, if it is a plain function
+	if !x.hasExit && len(x.extras) == 0 && len(pre) == 0 && fd.Recv == nil {
+		ft := &xty{k: kFunc, results: x.results}
+		for _, p := range fd.Type.Params.List {
+			for range p.Names {
+				ft.params = append(ft.params, x.goTy(p.Type))
+			}
+		}
+		known[sp.Func] = ft
+	}
 	return out
+}
+
+// parameters of slice / map type whose elements the body writes (in-place sort, element assignment)
+func (x *xtr) inPlaceParams(fd *ast.FuncDecl) []string {
+	hit, reassigned := map[string]bool{}, map[string]bool{}
+	isParam := func(e ast.Expr) (string, bool) {
+		id, ok := e.(*ast.Ident)
+		if !ok || !x.params[id.Name] {
+			return "", false
+		}
+		k := x.env[id.Name].k
+		return id.Name, k == kList || k == kMap
+	}
+	ast.Inspect(fd.Body, func(n ast.Node) bool {
+		switch t := n.(type) {
+		case *ast.CallExpr:
+			if inPlaceCalls[selName(t.Fun)] && len(t.Args) > 0 {
+				if n, ok := isParam(t.Args[0]); ok {
+					hit[n] = true
+				}
+			}
+		case *ast.AssignStmt:
+			for _, l := range t.Lhs {
+				if ie, ok := l.(*ast.IndexExpr); ok {
+					if n, ok := isParam(ie.X); ok {
+						hit[n] = true
+					}
+				}
+				if n, ok := isParam(l); ok && t.Tok != token.DEFINE {
+					reassigned[n] = true
+				}
+			}
+		case *ast.IncDecStmt:
+			if ie, ok := t.X.(*ast.IndexExpr); ok {
+				if n, ok := isParam(ie.X); ok {
+					hit[n] = true
+				}
+			}
+		}
+		return true
+	})
+	for n := range hit {
+		if reassigned[n] {
+			x.bad(fd, "parameter %s is both reassigned and written in place", n)
+		}
+	}
+	return sortedNames(hit)
 }
 
 // library functions that stay abstract: they become leading parameters of the translated function
